@@ -103,6 +103,11 @@ var whitelist = []fnSpec{
 	// handed to the in-place writers, a call of another method of the same receiver
 	{"thrift", "ApplicationException", "BLength"}, {"thrift", "ApplicationException", "FastRead"},
 	{"thrift", "ApplicationException", "FastWrite"}, {"thrift", "ApplicationException", "FastWriteNocopy"},
+	// the no-copy writers (binary.go) over an abstract NocopyWriter with a nil flag, and the generated
+	// writers of base/k-base.go: `for k, v := range p.Extra` with the enumeration order as a parameter
+	{"thrift", "BinaryProtocol", "WriteBinaryNocopy"}, {"thrift", "BinaryProtocol", "WriteStringNocopy"},
+	{"base", "Base", "BLength"}, {"base", "Base", "FastWriteNocopy"}, {"base", "Base", "FastWrite"},
+	{"base", "BaseResp", "BLength"}, {"base", "BaseResp", "FastWriteNocopy"}, {"base", "BaseResp", "FastWrite"},
 }
 
 // Coq names that differ from g_<pkg>_<Func> (methods of several types with the same name)
@@ -110,17 +115,23 @@ var coqNameOf = map[fnSpec]string{
 	{"thrift", "SkipDecoderTpl", "Skip"}: "g_thrift_SkipDecoderTpl_Skip",
 	{"thrift", "BufferReader", "next"}:   "g_thrift_BufferReader_next", {"thrift", "BufferReader", "skipn"}: "g_thrift_BufferReader_skipn",
 	{"thrift", "BufferReader", "ReadI32"}: "g_thrift_BufferReader_ReadI32", {"thrift", "BufferReader", "skipstr"}: "g_thrift_BufferReader_skipstr",
-	{"thrift", "BufferReader", "ReadFieldBegin"}: "g_thrift_BufferReader_ReadFieldBegin",
-	{"thrift", "BufferReader", "ReadMapBegin"}:   "g_thrift_BufferReader_ReadMapBegin",
-	{"thrift", "BufferReader", "ReadListBegin"}:  "g_thrift_BufferReader_ReadListBegin",
-	{"thrift", "BufferReader", "skipType"}:       "g_thrift_BufferReader_skipType",
-	{"thrift", "BufferReader", "Skip"}:           "g_thrift_BufferReader_Skip",
-	{"base", "Base", "FastRead"}:                 "g_base_Base_FastRead",
-	{"base", "BaseResp", "FastRead"}:             "g_base_BaseResp_FastRead",
+	{"thrift", "BufferReader", "ReadFieldBegin"}:          "g_thrift_BufferReader_ReadFieldBegin",
+	{"thrift", "BufferReader", "ReadMapBegin"}:            "g_thrift_BufferReader_ReadMapBegin",
+	{"thrift", "BufferReader", "ReadListBegin"}:           "g_thrift_BufferReader_ReadListBegin",
+	{"thrift", "BufferReader", "skipType"}:                "g_thrift_BufferReader_skipType",
+	{"thrift", "BufferReader", "Skip"}:                    "g_thrift_BufferReader_Skip",
+	{"base", "Base", "FastRead"}:                          "g_base_Base_FastRead",
+	{"base", "BaseResp", "FastRead"}:                      "g_base_BaseResp_FastRead",
 	{"thrift", "ApplicationException", "BLength"}:         "g_thrift_ApplicationException_BLength",
 	{"thrift", "ApplicationException", "FastRead"}:        "g_thrift_ApplicationException_FastRead",
 	{"thrift", "ApplicationException", "FastWrite"}:       "g_thrift_ApplicationException_FastWrite",
 	{"thrift", "ApplicationException", "FastWriteNocopy"}: "g_thrift_ApplicationException_FastWriteNocopy",
+	{"base", "Base", "BLength"}:                           "g_base_Base_BLength",
+	{"base", "Base", "FastWriteNocopy"}:                   "g_base_Base_FastWriteNocopy",
+	{"base", "Base", "FastWrite"}:                         "g_base_Base_FastWrite",
+	{"base", "BaseResp", "BLength"}:                       "g_base_BaseResp_BLength",
+	{"base", "BaseResp", "FastWriteNocopy"}:               "g_base_BaseResp_FastWriteNocopy",
+	{"base", "BaseResp", "FastWrite"}:                     "g_base_BaseResp_FastWrite",
 }
 
 // library calls that are given a meaning (everything else fails)
@@ -184,6 +195,10 @@ type fnInfo struct {
 	globals               []*types.Var    // package-level scalar variables read (transitively), leading parameters
 	errKeys               map[string]bool // error values (ecode keys) the function or its callees can produce
 	errCmps               []errCmp        // comparisons err == <error variable> to be validated at the end
+	// phase 3 (ext3.go)
+	hasRange bool                // contains a range statement over a map
+	nilable  map[*types.Var]bool // abstract objects (interface-typed parameters) that are compared with nil: they get a nil flag
+	oracles  []oracle            // the enumeration orders of its map range statements (and of its callees'): trailing parameters
 }
 
 type errCmp struct {
@@ -214,14 +229,16 @@ type fctx struct {
 	nestedMut bool          // a call that stores into a parameter occurs below the statement's top-level call
 	topCall   *ast.CallExpr // the call that IS the statement / its only right-hand side, if any
 
-	vars      map[string]*cvar         // every Coq variable name that stands for (a part of) a Go variable
-	loops     []*loopFrame             // enclosing for statements, innermost last
-	brk       []func(depth int) string // what `break` means here, innermost last
-	conts     []func(depth int) string // what `continue` means here, innermost last
-	endK      func(depth int) string   // what follows the last statement of the function
-	exiting   int                      // translating the target of a goto: control does not come back into the loops
-	nloop     int
-	loopCache map[*ast.BlockStmt]*loopFrame // a for statement reached along several paths is one Fixpoint
+	vars       map[string]*cvar         // every Coq variable name that stands for (a part of) a Go variable
+	loops      []*loopFrame             // enclosing for statements, innermost last
+	brk        []func(depth int) string // what `break` means here, innermost last
+	conts      []func(depth int) string // what `continue` means here, innermost last
+	endK       func(depth int) string   // what follows the last statement of the function
+	exiting    int                      // translating the target of a goto: control does not come back into the loops
+	lenOfSlice bool                     // translating the operand of len(...): p[a:] of a stored-into parameter is allowed
+	nloop      int
+	loopCache  map[*ast.BlockStmt]*loopFrame // a for statement reached along several paths is one Fixpoint
+	callOrds   map[*ast.CallExpr][]string    // the order oracles handed to a callee, per call site
 }
 
 func (c *fctx) failf(n ast.Node, format string, a ...interface{}) {
@@ -735,9 +752,10 @@ func (c *fctx) expr(e ast.Expr) (pre []string, term string) {
 		if !isBytesLike(c.info.TypeOf(x.X)) || x.Slice3 {
 			c.failf(e, "slice expression on %s", c.info.TypeOf(x.X))
 		}
-		if c.isMutatedParam(x.X) {
+		if c.isMutatedParam(x.X) && !c.lenOfSlice {
 			c.failf(e, "slice of a []byte parameter that is also stored into, outside a store destination (aliasing is not modelled)")
 		}
+		c.lenOfSlice = false
 		p, a := c.expr(x.X)
 		pre = p
 		t := c.fresh()
@@ -800,6 +818,9 @@ func (c *fctx) binary(x *ast.BinaryExpr) (pre []string, term string) {
 				return "(negb " + s + ")"
 			}
 			return s
+		}
+		if t, ok := c.nilTest(x); ok {
+			return nil, neg(t)
 		}
 		// err == nil / err != nil
 		if isErrorIface(lt) || isErrorIface(rt) {
@@ -951,10 +972,18 @@ func (c *fctx) call(x *ast.CallExpr) (pre []string, terms []string) {
 		if _, isB := c.info.Uses[id].(*types.Builtin); isB {
 			switch id.Name {
 			case "len":
+				if k, _, isMap := mapKV(c.info.TypeOf(x.Args[0])); isMap {
+					p, a := c.expr(x.Args[0])
+					return p, []string{"(gmap_len " + c.keyEqb(x, k) + " " + a + ")"}
+				}
 				if !isBytesLike(c.info.TypeOf(x.Args[0])) {
 					c.failf(x, "len of %s", c.info.TypeOf(x.Args[0]))
 				}
+				// len(p[a:]) keeps no reference to p: allowed for a parameter that is stored into
+				saved := c.lenOfSlice
+				c.lenOfSlice = true
 				p, a := c.expr(x.Args[0])
+				c.lenOfSlice = saved
 				return p, []string{"(glen " + a + ")"}
 			case "append":
 				if !isByteSlice(c.info.TypeOf(x.Args[0])) {
@@ -1270,6 +1299,8 @@ func (c *fctx) block(depth int, list []ast.Stmt, k func(depth int) string) strin
 		return c.block(depth, []ast.Stmt{s.Stmt}, rest)
 	case *ast.ForStmt:
 		return c.forStmt(depth, s, rest)
+	case *ast.RangeStmt:
+		return c.rangeStmt(depth, s, rest)
 	case *ast.BranchStmt:
 		return c.branchStmt(depth, s)
 	case *ast.DeclStmt:
@@ -1624,6 +1655,7 @@ func (t *tr) analyse(f *fnInfo, seen map[*fnInfo]bool) {
 					f.needsFuel = f.needsFuel || callee.needsFuel
 					f.needsRFuel = f.needsRFuel || callee.needsRFuel
 					t.mapAbstract(f, callee, x)
+					t.mapNilable(f, callee, x)
 					for _, e := range callee.externs {
 						f.addExtern(e)
 					}
@@ -1666,7 +1698,7 @@ func (t *tr) translate(f *fnInfo) {
 	}
 	f.state = 1
 	c := &fctx{t: t, f: f, info: f.pkg.TypesInfo, names: map[types.Object]string{}, used: map[string]bool{},
-		vars: map[string]*cvar{}, loopCache: map[*ast.BlockStmt]*loopFrame{}}
+		vars: map[string]*cvar{}, loopCache: map[*ast.BlockStmt]*loopFrame{}, callOrds: map[*ast.CallExpr][]string{}}
 	defer func() {
 		if r := recover(); r != nil {
 			e, ok := r.(trErr)
@@ -1731,6 +1763,9 @@ func (t *tr) translate(f *fnInfo) {
 			continue
 		}
 		n := c.nameOf(p)
+		if f.nilable[p] {
+			addBinder(c.absNilName(p), "bool")
+		}
 		addBinder(n, c.varCoqType(f.decl, c.vars[n]))
 	}
 	binders = append(binders, tail...)
@@ -1871,7 +1906,19 @@ func (t *tr) translate(f *fnInfo) {
 	for _, n := range notes {
 		fmt.Fprintf(&sb, "(* %s *)\n", n)
 	}
+	for _, o := range f.oracles {
+		binders = append(binders, fmt.Sprintf("(%s : list %s)", o.name, o.typ))
+		fmt.Fprintf(&sb, "(* %s *)\n", o.note)
+	}
+	for _, p := range f.params {
+		if f.nilable[p] {
+			fmt.Fprintf(&sb, "(* %s is compared with nil: %s says whether it is the nil interface value (a method call panics then) *)\n", p.Name(), c.absNilName(p))
+		}
+	}
 	if f.selfRec {
+		if len(f.oracles) > 0 {
+			c.failf(f.decl, "a recursive function with map range statements")
+		}
 		fmt.Fprintf(&sb, "Fixpoint %s %s {struct rfuel} : res (%s) :=\n  match rfuel with\n  | O => Err gfuel\n  | S rfuel' =>\n%s\n  end.\n",
 			f.coqName, strings.Join(binders, " "), rt, strings.TrimRight(body, "\n"))
 	} else {
@@ -1937,8 +1984,8 @@ func header() string {
        the package only ever reads by indexing (checked over the whole package) is a leading
        parameter gv_<name> : list Z, indexed with a bounds check (GoSem.gtable).
    Phase 2 (loops, recursion, pointers, maps, abstract objects):
-     * a for statement (for init; cond; post {body}, for cond {body}, for {body}; no range, no
-       labels) is a standalone Fixpoint <func>_loop<k> on its own fuel lf, one unit per
+     * a for statement (for init; cond; post {body}, for cond {body}, for {body}; no labels;
+       range: phase 3) is a standalone Fixpoint <func>_loop<k> on its own fuel lf, one unit per
        iteration; its arguments are the variables declared outside that an iteration reads, then
        those it assigns (loop-carried); it returns inl (final carried values) when the condition
        fails or on break, inr (the function's result) on return.  Out of fuel is Err gfuel, the
@@ -1987,7 +2034,30 @@ func header() string {
      * fmt.Errorf / errors.New / thrift.NewProtocolException build a non-nil error identified by
        <pkg>.<func>#<constructor>[#k] (k-th call of that constructor in the function when there
        are several); their arguments must be free of effects, except err.Error(), which panics
-       when err is nil (GoSem.gerr_deref). *)
+       when err is nil (GoSem.gerr_deref).
+   Phase 3 (the write / encode side):
+     * switch { case c1: ... default: ... } without a tag: the conditions are evaluated top to
+       bottom until one holds (one condition per case, no fallthrough);
+     * f(p[a:], ...) for a []byte parameter p that is stored into and a callee f that stores into
+       its parameter: the slice expression is checked (gslice_from), the callee works on the tail
+       and cannot change its length, its final contents replace the tail of p (GoSem.gsplice);
+       no other argument of the call may mention p; len(p[a:]) is allowed (it keeps no reference);
+     * p.M(...) inside a method of the same pointer receiver p (a struct with fields): the callee
+       gets the nil flag and the current fields, its final fields are the caller's afterwards;
+       p == nil / p != nil is the flag;
+     * an interface-typed parameter w that is compared with nil (in the function or in a callee it
+       is handed to) gets a flag v_w_isnil before its state: w == nil is the flag, a method call
+       through the nil value panics (gptr_check); the literal nil handed to such a parameter is
+       (unit, methods that panic, true, tt);
+     * len(m) of a map is GoSem.gmap_len (the number of distinct keys);
+     * for k, v := range m over a map variable or a map field of the receiver, not inside another
+       loop, whose body does not assign the map: Go does not specify the enumeration order, so the
+       generated definition takes it as a TRAILING PARAMETER ord_<k> : list K, one per range
+       statement; the loop is a Fixpoint by structural recursion on that list (no fuel), v is
+       looked up in the map.  The definition does not test the oracle: the theorems assume
+       GoSem.gmap_order_ok m ord (each key of the map exactly once).  A caller of such a function
+       takes the callee's oracles as its own trailing parameters (one set per call site; not
+       inside loops). *)
 From GV Require Import Lib.Bytes Lib.Res Lib.GoSem.
 Open Scope Z_scope.
 `
